@@ -16,7 +16,9 @@
                                                                            txs under the EIP-155 signer); FALSE for protected txs under
                                                                            the EIP-155 signer: eip155_high_s_malleable,
                                                                            eip155_accepts_high_s_witness (known finding)
-    "cached sender queried under a different signer"                      cache_transparent
+    "cached sender queried under a different signer"                      cache_transparent, senderCached_sound, withSignature_clears_caches,
+                                                                           object_lifetime_transparent (hash / size / sender caches of one
+                                                                           object across re-signing)
     "hash and sender survive RLP and JSON re-encoding"                    hash_sender_stable_under_reencoding, rlp_decode_canonical,
                                                                            json_roundtrip, json_accepts_sender_ok
     MakeSigner by height                                                   makeSigner_spec
@@ -322,6 +324,41 @@ theorem signer_equal_iff (a b : Signer) : a.equal b = true ↔ a = b := by
 def CacheOK (E : Ecdsa) (H : Bytes → Bytes) (t : Tx) (c : Cache) : Prop :=
   ∀ cs a, c = some (cs, a) → senderOf E H cs t = .ok a
 
+/-- one call of the caching `types.Sender`: the answer is the uncached one and the cache stays sound. -/
+theorem senderCached_sound (E : Ecdsa) (H : Bytes → Bytes) (t : Tx) (c : Cache) (hc : CacheOK E H t c) (sg : Signer) :
+    (senderCached E H c sg t).1 = senderOf E H sg t ∧ CacheOK E H t (senderCached E H c sg t).2 := by
+  unfold senderCached
+  cases c with
+  | none =>
+    simp only
+    cases hs : senderOf E H sg t with
+    | ok a =>
+      refine ⟨rfl, ?_⟩
+      intro cs a' hca
+      injection hca with hca
+      injection hca with h1 h2
+      subst h1; subst h2
+      exact hs
+    | error e => exact ⟨rfl, hc⟩
+  | some p =>
+    obtain ⟨cs, a⟩ := p
+    simp only
+    by_cases heq : cs.equal sg = true
+    · rw [if_pos heq]
+      have := (signer_equal_iff cs sg).mp heq
+      subst this
+      exact ⟨(hc cs a rfl).symm, hc⟩
+    · rw [if_neg heq]
+      cases hs : senderOf E H sg t with
+      | ok a2 =>
+        refine ⟨rfl, ?_⟩
+        intro cs' a' hca
+        injection hca with hca
+        injection hca with h1 h2
+        subst h1; subst h2
+        exact hs
+      | error e => exact ⟨rfl, hc⟩
+
 /-- Whatever sequence of signers a transaction object is queried under — same signer again, another kind, another chain
     id — every answer of the caching `types.Sender` equals the uncached `signer.Sender(tx)`: the cache never answers
     for a different signer. -/
@@ -331,39 +368,64 @@ theorem cache_transparent (E : Ecdsa) (H : Bytes → Bytes) (t : Tx) (c : Cache)
   | nil => rfl
   | cons sg rest ih =>
     simp only [senderSeq, List.map_cons]
-    have step : (senderCached E H c sg t).1 = senderOf E H sg t ∧ CacheOK E H t (senderCached E H c sg t).2 := by
-      unfold senderCached
-      cases c with
+    have step := senderCached_sound E H t c hc sg
+    rw [step.1, ih _ step.2]
+
+/-- all three caches of a transaction object are sound: what is stored is what would be computed from the object's data. -/
+def ObjOK (E : Ecdsa) (H : Bytes → Bytes) (o : TxObj) : Prop :=
+  (∀ h, o.hashC = some h → h = txHash H o.data) ∧ (∀ n, o.sizeC = some n → n = (encodeTx o.data).length) ∧
+  CacheOK E H o.data o.fromC
+
+/-- `WithSignature` returns a NEW object: its data carries the new signature values, its hash, size and sender caches are
+    EMPTY — whatever the receiver had cached (even unsound entries) — hence sound.  (A shallow copy `cpy := *tx` would
+    carry the old hash / sender over to the re-signed transaction.) -/
+theorem withSignature_clears_caches (E : Ecdsa) (H : Bytes → Bytes) (sg : Signer) (o : TxObj) (r s rid : Nat) :
+    (objWithSignature sg o r s rid).hashC = none ∧ (objWithSignature sg o r s rid).sizeC = none ∧
+    (objWithSignature sg o r s rid).fromC = none ∧
+    (objWithSignature sg o r s rid).data = withSignature sg o.data r s rid ∧
+    ObjOK E H (objWithSignature sg o r s rid) := by
+  refine ⟨rfl, rfl, rfl, rfl, ?_, ?_, ?_⟩
+  · intro h hh; cases hh
+  · intro n hn; cases hn
+  · intro cs a hh; cases hh
+
+/-- Object lifetime: any sequence of Hash / Size / Sender(any signer) / WithSignature(any signer, any signature values) on
+    one object with sound caches (a fresh, decoded or re-signed one) — following the new object after each re-signing —
+    observes exactly what the cache-free functions give on the current data: the hash of the own encoding, its length, the
+    uncached sender.  Extends `cache_transparent` from the sender cache to all three caches and across re-signing. -/
+theorem object_lifetime_transparent (E : Ecdsa) (H : Bytes → Bytes) (o : TxObj) (ho : ObjOK E H o) (ops : List Op) :
+    runOps E H o ops = pureOps E H o.data ops := by
+  induction ops generalizing o with
+  | nil => rfl
+  | cons op rest ih =>
+    obtain ⟨h1, h2, h3⟩ := ho
+    cases op with
+    | hash =>
+      simp only [runOps, pureOps, objHash]
+      cases hc : o.hashC with
+      | some h =>
+        simp only
+        rw [h1 h hc, ih o ⟨h1, h2, h3⟩]
       | none =>
         simp only
-        cases hs : senderOf E H sg t with
-        | ok a =>
-          refine ⟨rfl, ?_⟩
-          intro cs a' hca
-          injection hca with hca
-          injection hca with h1 h2
-          subst h1; subst h2
-          exact hs
-        | error e => exact ⟨rfl, hc⟩
-      | some p =>
-        obtain ⟨cs, a⟩ := p
+        rw [ih { o with hashC := some (txHash H o.data) } ⟨by intro h hh; injection hh with hh; exact hh.symm, h2, h3⟩]
+    | size =>
+      simp only [runOps, pureOps, objSize]
+      cases hc : o.sizeC with
+      | some n =>
         simp only
-        by_cases heq : cs.equal sg = true
-        · rw [if_pos heq]
-          have := (signer_equal_iff cs sg).mp heq
-          subst this
-          exact ⟨(hc cs a rfl).symm, hc⟩
-        · rw [if_neg heq]
-          cases hs : senderOf E H sg t with
-          | ok a2 =>
-            refine ⟨rfl, ?_⟩
-            intro cs' a' hca
-            injection hca with hca
-            injection hca with h1 h2
-            subst h1; subst h2
-            exact hs
-          | error e => exact ⟨rfl, hc⟩
-    rw [step.1, ih _ step.2]
+        rw [h2 n hc, ih o ⟨h1, h2, h3⟩]
+      | none =>
+        simp only
+        rw [ih { o with sizeC := some (encodeTx o.data).length } ⟨h1, by intro n hn; injection hn with hn; exact hn.symm, h3⟩]
+    | sender sg =>
+      simp only [runOps, pureOps, objSender]
+      have step := senderCached_sound E H o.data o.fromC h3 sg
+      rw [step.1, ih { o with fromC := (senderCached E H o.fromC sg o.data).2 } ⟨h1, h2, step.2⟩]
+    | withSig sg r s rid =>
+      simp only [runOps, pureOps]
+      rw [ih _ (withSignature_clears_caches E H sg o r s rid).2.2.2.2]
+      rfl
 
 /-! ## 6. re-encoding -/
 
@@ -590,6 +652,14 @@ example : (⟨0, 1, 21000, none, 0, [], 27, 1, secpN - 1⟩ : Tx).s > secpHalfN 
 
 /-- cache_transparent: the empty cache is sound, and so is a cache filled by a previous call. -/
 example (E : Ecdsa) (H : Bytes → Bytes) (t : Tx) : CacheOK E H t none := by intro _ _ h; cases h
+
+/-- object_lifetime_transparent: a fresh object is sound; a life that hashes, asks the sender, re-signs for another chain and
+    asks again is non-trivial. -/
+example (E : Ecdsa) (H : Bytes → Bytes) (t : Tx) : ObjOK E H (TxObj.fresh t) := by
+  refine ⟨?_, ?_, ?_⟩
+  · intro h hh; cases hh
+  · intro n hn; cases hn
+  · intro cs a hh; cases hh
 
 /-- re-encoding: hypotheses satisfiable on a signed transaction with recipient. -/
 example : (⟨3, 7, 21000, some (List.replicate 20 9), 5, [1, 2], 45, 42, 1⟩ : Tx).WF :=
